@@ -132,6 +132,17 @@ def make_cases(run, scratch):
         desc = S.gen_synthetic(rng)
         cfg = S.filter_lines(rng) + ["flags %d" % flag_choices(rng, "syn")]
         cases.append(("synthetic:%s|%s" % (desc, ";".join(cfg)), cfg + ["src synthetic " + desc], "synthetic"))
+    # deep descriptions: hwloc_connect_levels doubles its level arrays at 16, 32, 64 levels (Group KEEP_ALL keeps
+    # the single-child levels; without it the load-time merging removes them again after the levels were built)
+    for nlev in ([14, 15, 16, 17, 31, 32, 33, 63, 64, 65] if quick else list(range(10, 70)) + [100, 126]):
+        for keep in (True, False):
+            parts = ["group:%d" % (2 if j == k2 else 1) for k2 in [rng.randrange(nlev)] for j in range(nlev)]
+            if rng.random() < 0.5:
+                j = rng.randrange(nlev)
+                parts[j] = rng.choice(["pack", "core", "l2", "numa", "die"]) + parts[j][5:]
+            desc = " ".join(parts) + " pu:2"
+            cfg = (["filter 13 0"] if keep else []) + ["flags 0"]
+            cases.append(("synthetic:%s|%s" % (desc, ";".join(cfg)), cfg + ["src synthetic " + desc], "synthetic-deep"))
     # richer streams from the other builders' generators: synthetic grammar (typed/untyped, index
     # interleaving, attached memory) and random XML trees (asymmetric, MemCache, Groups, I/O, Misc)
     try:
@@ -185,6 +196,15 @@ def make_cases(run, scratch):
     # on every x86 dump (cheap) and on the sampled Linux snapshots (seeded change C01b: Die objects built under the
     # wrong filter in topology-x86.c)
     per_type = [1, 2, 3, 5, 6, 7, 8, 9, 10, 11, 12, 13]
+    # every bundled snapshot once with the default configuration, in every tier
+    for tb in lin:
+        d = scratch.unpack(tb)
+        cases.append(("linux:%s|default" % os.path.basename(tb),
+                      ["env HWLOC_COMPONENTS linux,stop", "env HWLOC_THISSYSTEM 0", "env HWLOC_CPUID_PATH", "flags 0", "src fsroot " + d], "linux-default"))
+    for tb in x86:
+        d = scratch.unpack(tb)
+        cases.append(("x86:%s|default" % os.path.basename(tb),
+                      ["env HWLOC_COMPONENTS x86,stop", "env HWLOC_THISSYSTEM 0", "env HWLOC_FSROOT", "flags 0", "src cpuid " + d], "x86-default"))
     if quick:
         lin = rng.sample(lin, min(8, len(lin)))
     for tb in x86:
@@ -242,9 +262,9 @@ def make_cases(run, scratch):
 
 def trace_inserts(name, kind):
     """Insertion tracing prints the whole raw tree around every insertion (quadratic): small inputs only."""
-    if kind in ("synthetic", "synthetic2", "corpus"):
+    if kind in ("synthetic", "synthetic2", "corpus", "synthetic-deep"):
         return True
-    if kind in ("linux", "x86", "x86-type-none", "linux-type-none", "linux-io-filters"):
+    if kind in ("linux", "x86", "x86-type-none", "linux-type-none", "linux-io-filters", "linux-default", "x86-default"):
         m = re.match(r"\w+:(\d+)", name)
         return bool(m) and int(m.group(1)) <= 32
     return False
